@@ -52,6 +52,9 @@ func init() {
 		"fmt.Println":  extDiscardPrint,
 		"fmt.Print":    extDiscardPrint,
 
+		"strings.Contains":                 extContains,
+		"strings.ToLower":                  extToLower,
+		"strings.ToUpper":                  extToUpper,
 		"internal/bytealg.IndexByte":       extIndexByte,
 		"internal/bytealg.IndexByteString": extIndexByte,
 		"internal/bytealg.Count":           extCountByte,
@@ -943,4 +946,79 @@ func extAtomicCAS(fr *frame, args []value) value {
 		return true
 	}
 	return false
+}
+
+// strings.Contains as one boolean term (no fork per position).
+func extContains(fr *frame, args []value) value {
+	i := fr.i
+	s, sub := args[0], args[1]
+	ls, lsub := strLen(s), strLen(sub)
+	if lsub == 0 {
+		return true
+	}
+	if _, ok := s.(string); ok {
+		if _, ok := sub.(string); ok {
+			return strings.Contains(s.(string), sub.(string))
+		}
+	}
+	var r value = false
+	for j := 0; j+lsub <= ls; j++ {
+		r = i.vOr(r, i.strEq(strSlice(s, j, j+lsub), sub))
+		if r == true {
+			return true
+		}
+	}
+	return r
+}
+
+// caseMap implements strings.ToLower/ToUpper for strings whose bytes are all provably
+// ASCII as a per-byte ite; anything else runs the real function.
+func caseMap(fr *frame, args []value, name string, lo, hi byte, delta int) value {
+	i := fr.i
+	if s, ok := args[0].(string); ok {
+		if name == "ToLower" {
+			return strings.ToLower(s)
+		}
+		return strings.ToUpper(s)
+	}
+	ss := args[0].(symstr)
+	tt := i.tt()
+	out := make([]value, len(ss.b))
+	for j, e := range ss.b {
+		switch c := e.(type) {
+		case uint8:
+			if c >= 0x80 {
+				return i.callReal(fr, "strings", name, args)
+			}
+			if c >= lo && c <= hi {
+				out[j] = uint8(int(c) + delta)
+			} else {
+				out[j] = c
+			}
+		case sym:
+			if !i.ps.branch(tt.Cmp("ult", c.t, tt.Const(8, 0x80))) {
+				return i.callReal(fr, "strings", name, args)
+			}
+			in := tt.And(tt.Cmp("ule", tt.Const(8, uint64(lo)), c.t), tt.Cmp("ule", c.t, tt.Const(8, uint64(hi))))
+			out[j] = mkval(tt.Ite(in, tt.Bin("bvadd", c.t, tt.Const(8, uint64(uint8(delta)))), c.t), types.Uint8)
+		}
+	}
+	return mkstr(out)
+}
+
+func extToLower(fr *frame, args []value) value { return caseMap(fr, args, "ToLower", 'A', 'Z', 32) }
+func extToUpper(fr *frame, args []value) value { return caseMap(fr, args, "ToUpper", 'a', 'z', -32) }
+
+// callReal runs the SSA body of pkg.name, bypassing the intrinsic of the same name.
+func (i *interpreter) callReal(fr *frame, pkg, name string, args []value) value {
+	p := i.prog.ImportedPackage(pkg)
+	if p == nil {
+		panic(engineError("package not loaded: " + pkg))
+	}
+	fn := p.Func(name)
+	if fn == nil {
+		panic(engineError("function not found: " + pkg + "." + name))
+	}
+	i.bypass = fn
+	return callSSA(i, fr, 0, fn, args, nil)
 }
